@@ -36,6 +36,9 @@ def ident(lst):
     return [id(x) for x in lst]
 
 
+history_prelude = gen.history_prelude
+
+
 def run_case(case, res):
     from nutree.typed_tree import ANY_KIND, TypedTree
 
@@ -51,6 +54,8 @@ def run_case(case, res):
         nodes = gen.build(t, f, lambda i: f"n{i}", kind=lambda i: mk(kinds[i]))
     else:
         nodes = gen.build(t, f, lambda i: "x", kind=lambda i: mk(kinds[i]), data_id=lambda i: f"id{i}")
+    if case.get("prelude"):
+        nodes = history_prelude(t, nodes, rng_for(case.get("pseed", 0), "c15-prelude", case["f"], case["kinds"]), True)
     holders = [t._root] + nodes
     nontrivial = n >= 3 and any(len(h.children) >= 2 for h in holders)
     res.case(case, nontrivial=nontrivial)
@@ -147,7 +152,7 @@ def shards(tier, seed):
     full, part = (4, 6) if tier == "quick" else (6, 7)
     out = [{"name": f"enum{i}", "kind": "enum", "i": i, "full": full, "part": part,
             "budget_s": 120 if tier == "quick" else 1500} for i in range(NSHARDS)]
-    out += [{"name": f"rand{i}", "kind": "rand", "i": i, "count": 30 if tier == "quick" else 400,
+    out += [{"name": f"rand{i}", "kind": "rand", "i": i, "count": 30 if tier == "quick" else 2500,
              "budget_s": 60 if tier == "quick" else 600} for i in range(NSHARDS)]
     return out
 
@@ -167,8 +172,10 @@ def run_shard(spec, res):
                     assigns = ["".join(a) for a in itertools.product(KINDS, repeat=n)]
                 else:
                     assigns = ["".join(rng.choice(KINDS) for _ in range(n)) for _ in range(12)] + ["a" * n, "ab" * n]
-                for a in assigns:
+                for ai, a in enumerate(assigns):
                     run_case({"f": fc, "kinds": a[:n], "lab": "uniq"}, res)
+                    if n >= 1 and ai % 3 == 0:
+                        run_case({"f": fc, "kinds": a[:n], "lab": "uniq", "prelude": True, "pseed": ai}, res)
                 for a in assigns[:: max(1, len(assigns) // 6)]:
                     run_case({"f": fc, "kinds": a[:n], "lab": "eqsib"}, res)
                 if res.expired():
@@ -180,6 +187,7 @@ def run_shard(spec, res):
         for j in range(spec["count"]):
             f = gen.random_forest(rng, rng.randint(7, 25))
             n = gen.size(f)
-            run_case({"f": gen.code(f), "kinds": "".join(rng.choice(KINDS) for _ in range(n)), "lab": rng.choice(["uniq", "eqsib"])}, res)
+            run_case({"f": gen.code(f), "kinds": "".join(rng.choice(KINDS) for _ in range(n)), "lab": rng.choice(["uniq", "eqsib"]),
+                      "prelude": rng.random() < 0.5, "pseed": rng.randrange(10**6)}, res)
             if res.expired():
                 break
